@@ -74,4 +74,6 @@ THEOREMS = [
     ("DastardV.Lemmas.ComposeWriteControl", "DastardV.ComposeWC.sim_run"),
     ("DastardV.Lemmas.ComposeWriteControl", "DastardV.ComposeWC.project_append"),
     ("DastardV.Lemmas.ComposeWriteControl", "DastardV.ComposeWC.shapes_project"),
+    ("DastardV.Lemmas.C06Oracle", "DastardV.C06.firstBad_sound"),
+    ("DastardV.Lemmas.C06Oracle", "DastardV.C06.sameFiles_iff"),
 ]
